@@ -17,9 +17,12 @@ from concurrent.futures import ThreadPoolExecutor
 VERIF = os.path.dirname(os.path.dirname(os.path.abspath(__file__)))
 SPECS = os.environ.get("VERIF_SPECS") or os.path.join(VERIF, "specs")   # override: development of a specification in a scratch copy
 HARNESS = os.path.join(VERIF, "harness")
-WORKROOT = os.path.join(VERIF, ".work")
-EVIDENCE = os.path.join(VERIF, "evidence")
-REPLAYS = os.path.join(VERIF, "replays")
+# The registered commands use the defaults.  The overrides exist for development only: running a check against a
+# scratch copy of the repository (a seeded change) while /repo itself is in use, without touching evidence/ or replays/.
+REPO = os.environ.get("VERIF_REPO") or "/repo"
+WORKROOT = os.environ.get("VERIF_WORK") or os.path.join(VERIF, ".work")
+EVIDENCE = os.environ.get("VERIF_EVIDENCE") or os.path.join(VERIF, "evidence")
+REPLAYS = os.environ.get("VERIF_REPLAYS") or os.path.join(VERIF, "replays")
 TLA_CP = "/opt/veriftools/tla/tla2tools.jar:/opt/veriftools/tla/CommunityModules-deps.jar"
 NCPU = os.cpu_count() or 4
 
@@ -59,6 +62,20 @@ def cleanup(pid):
 
 # ---------------------------------------------------------------- Go driver
 
+def _modfile():
+    """-modfile argument that points the harness module at REPO when it is not /repo (development only)."""
+    if REPO == "/repo":
+        return []
+    os.makedirs(WORKROOT, exist_ok=True)
+    alt = os.path.join(WORKROOT, "alt.mod")
+    with open(os.path.join(HARNESS, "go.mod")) as f:
+        mod = f.read()
+    with open(alt, "w") as f:
+        f.write(mod.replace("=> /repo", "=> " + REPO))
+    shutil.copyfile(os.path.join(REPO, "go.sum"), os.path.join(WORKROOT, "alt.sum"))
+    return ["-modfile=" + alt]
+
+
 def build_driver(race=False):
     """Build verifdrv from /repo's working tree (replace directive) with hooks on."""
     os.makedirs(os.path.join(WORKROOT, "bin"), exist_ok=True)
@@ -68,7 +85,7 @@ def build_driver(race=False):
         shutil.copyfile("/repo/go.sum", gosum)
     except OSError:
         pass
-    cmd = ["go", "build", "-tags", "verif"] + (["-race"] if race else []) + ["-o", out, "./cmd/verifdrv"]
+    cmd = ["go", "build", "-tags", "verif"] + _modfile() + (["-race"] if race else []) + ["-o", out, "./cmd/verifdrv"]
     env = dict(os.environ, **GOENV)
     t0 = time.time()
     p = subprocess.run(cmd, cwd=HARNESS, env=env, stdout=subprocess.PIPE, stderr=subprocess.STDOUT, text=True)
@@ -85,7 +102,7 @@ def build_repo_binaries(pkgs):
     env = dict(os.environ, **GOENV)
     t0 = time.time()
     for pkg in pkgs:
-        p = subprocess.run(["go", "build", "-o", os.path.join(out, os.path.basename(pkg)), "github.com/openconfig/gnmi/" + pkg],
+        p = subprocess.run(["go", "build"] + _modfile() + ["-o", os.path.join(out, os.path.basename(pkg)), "github.com/openconfig/gnmi/" + pkg],
                            cwd=HARNESS, env=env, stdout=subprocess.PIPE, stderr=subprocess.STDOUT, text=True)
         if p.returncode != 0:
             raise Infra("build of %s failed:\n%s" % (pkg, p.stdout[-4000:]))
@@ -105,6 +122,7 @@ def repo_panic(stderr, pkg):
     """If stderr is a Go panic whose stack runs through /repo/<pkg>/, return a short signature."""
     if "panic:" not in stderr and "fatal error:" not in stderr:
         return None
+    stderr = stderr.replace(REPO + "/", "/repo/")
     frames = [ln.strip() for ln in stderr.splitlines() if ln.strip().startswith("/repo/")]
     if not any(("/repo/%s/" % pkg) in f for f in frames):
         return None
